@@ -546,6 +546,49 @@ func (p *Prog) ReachLexical(entries ...*ssa.Function) map[*ssa.Function]bool {
 	return seen
 }
 
+// ReachLexicalAvoiding is ReachLexical with some call sites removed: a call
+// edge whose site is in skip is not followed.
+func (p *Prog) ReachLexicalAvoiding(skip map[ssa.Instruction]bool, entries ...*ssa.Function) map[*ssa.Function]bool {
+	seen := map[*ssa.Function]bool{}
+	for _, e := range entries {
+		if e != nil {
+			seen[e] = true
+		}
+	}
+	for changed := true; changed; {
+		changed = false
+		for f := range seen {
+			var cands []*ssa.Function
+			if n := p.CG.Nodes[f]; n != nil {
+				for _, e := range n.Out {
+					if e.Site != nil && skip[e.Site] {
+						continue
+					}
+					cands = append(cands, e.Callee.Func)
+				}
+			}
+			for _, b := range f.Blocks {
+				for _, ins := range b.Instrs {
+					if mc, ok := ins.(*ssa.MakeClosure); ok {
+						cands = append(cands, mc.Fn.(*ssa.Function))
+					}
+				}
+			}
+			for _, c := range cands {
+				if seen[c] {
+					continue
+				}
+				if par := c.Parent(); par != nil && !seen[par] {
+					continue
+				}
+				seen[c] = true
+				changed = true
+			}
+		}
+	}
+	return seen
+}
+
 // OriginOf returns the generic origin of an instantiated function, or fn.
 func OriginOf(fn *ssa.Function) *ssa.Function {
 	if fn == nil {
